@@ -254,18 +254,57 @@ theorem binary_element_identity (bs : Bytes) (h : bs ≠ []) :
   simp only [opaqueToBase64, h, if_false]
   exact binary_element_roundtrip bs _ h (b64Encode_filter bs)
 
-/-- OTA `ICON` values and DRMREL `ds:KeyValue` (decoded without white-space removal): base64 text without
-    white space becomes the opaque of exactly the bytes. The full-strength statement (white space allowed,
-    as for binary elements) is false for the current code: `ota_drmrel_whitespace_witness` (known finding). -/
-theorem base64_noStrip_roundtrip_partial (bs : Bytes) (h : bs ≠ []) :
-    base64ToOpaqueNoStrip (b64Encode bs) = opaqueItem bs := by
-  simp [base64ToOpaqueNoStrip, Wbxml.Props.C11.b64_decode_encode bs h]
+/-- OTA `ICON` values and DRMREL `ds:KeyValue` (XML → WBXML), full strength since the fix of finding
+    `b64-whitespace-ota-drmrel`: ANY text that is the base64 of `bs` with white space (space, TAB, LF, VT, FF, CR)
+    anywhere inside — line-wrapped, indented, or none at all — becomes the opaque of exactly `bs`
+    (`bs = []`: text of white space only gives the empty opaque). -/
+theorem base64_strip_roundtrip (bs s : Bytes)
+    (hs : s.filter (fun c => !isSpace c) = b64Encode bs) :
+    base64ToOpaqueStrip s = opaqueItem bs := by
+  by_cases h : bs = []
+  · subst h
+    have e : b64Encode [] = [] := by decide
+    have d : b64Decode [] = none := by decide
+    simp [base64ToOpaqueStrip, hs, e, d]
+  · simp [base64ToOpaqueStrip, hs, Wbxml.Props.C11.b64_decode_encode bs h]
 
-/-- The base64 of `ABCDEF` wrapped after four characters loses its second half. -/
-theorem ota_drmrel_whitespace_witness :
+/-- What the encoder decodes is the text with its white space removed: the bytes it sends are those the
+    stripped text denotes (nothing of the text behind a white-space character is lost any more). -/
+theorem base64_strip_decodes_stripped_text (bs s : Bytes) (h : bs ≠ [])
+    (hs : s.filter (fun c => !isSpace c) = b64Encode bs) :
+    b64Decode (s.filter (fun c => !isSpace c)) = some bs := by
+  rw [hs]; exact Wbxml.Props.C11.b64_decode_encode bs h
+
+/-- In particular for the text the library itself generates (no white space in it). -/
+theorem base64_strip_roundtrip_plain (bs : Bytes) :
+    base64ToOpaqueStrip (b64Encode bs) = opaqueItem bs :=
+  base64_strip_roundtrip bs _ (b64Encode_filter bs)
+
+/-- The round trip of the property for OTA `ICON` / DRMREL `ds:KeyValue`: opaque → base64 (parser) → opaque
+    (encoder) is the identity, and so is it when the base64 text has been re-wrapped in between. -/
+theorem base64_strip_identity (bs : Bytes) (h : bs ≠ []) :
+    (opaqueToBase64 bs).map base64ToOpaqueStrip = .ok (opaqueItem bs) := by
+  simp only [opaqueToBase64, h, if_false]
+  exact congrArg Except.ok (base64_strip_roundtrip_plain bs)
+
+/-- Text without white space is treated exactly as before the fix (the text itself is decoded). -/
+theorem base64_strip_noSpace_unchanged (s : Bytes) (h : ∀ c ∈ s, isSpace c = false) :
+    base64ToOpaqueStrip s = opaqueItem ((b64Decode s).getD []) := by
+  simp only [base64ToOpaqueStrip, filter_noSpace_id s h]
+  cases b64Decode s <;> rfl
+
+/-- Regression for the former negation witness `ota_drmrel_whitespace_witness` (`QUJD REVG` gave `ABC`):
+    the base64 of `ABCDEF` wrapped after four characters — by a space, a CR LF pair or a TAB with indentation —
+    now carries the whole data. -/
+theorem ota_drmrel_whitespace_regression :
     (b!"QUJD REVG").filter (fun c => !isSpace c) = b64Encode b!"ABCDEF" ∧
-    base64ToOpaqueNoStrip b!"QUJD REVG" = opaqueItem b!"ABC" ∧
-    base64ToOpaqueNoStrip b!"QUJD REVG" ≠ opaqueItem b!"ABCDEF" := by decide
+    base64ToOpaqueStrip b!"QUJD REVG" = opaqueItem b!"ABCDEF" ∧
+    base64ToOpaqueStrip [0x51, 0x55, 0x4A, 0x44, 0x0D, 0x0A, 0x52, 0x45, 0x56, 0x47] = opaqueItem b!"ABCDEF" ∧
+    base64ToOpaqueStrip [0x0A, 0x09, 0x51, 0x55, 0x4A, 0x44, 0x0A, 0x09, 0x52, 0x45, 0x56, 0x47, 0x0A] = opaqueItem b!"ABCDEF" := by
+  decide
+
+example : ∃ s : Bytes, s ≠ b64Encode b!"ABCDEF" ∧ s.filter (fun c => !isSpace c) = b64Encode b!"ABCDEF" :=
+  ⟨b!"QUJD REVG", by decide, by decide⟩
 
 example : (b!"abc" : Bytes) ≠ [] := by decide
 
